@@ -768,6 +768,17 @@ func goCode(root string, unit string) string {
 		header("Model.GoSem", "Model.GoBytes", "Generated.GoConfig")
 		text, errs := translateHex(parseFile(root, "config/config.go"))
 		emit("config/config.go (hexToAnsi and parse, on bytes)", text, errs)
+	case "present":
+		header("Model.GoSem", "Model.GoSlices", "Model.GoJson", "Model.GoText", "Model.GoItem", "Generated.GoLink", "Generated.GoStyle", "Generated.GoAnsih")
+		text, errs := translatePresent(root, []string{
+			"Post.String", "Post.Preview", "Post.Name", "Post.Timestamp",
+			"Actor.String", "Actor.Preview", "Actor.Name", "Actor.Timestamp",
+			"Activity.String", "Activity.Preview", "Activity.Name", "Activity.Timestamp",
+			"Failure.String", "Failure.Preview", "Failure.Name", "Failure.Timestamp",
+		},
+			[]string{"background", "foreground", "Bold", "Strikethrough", "Underline", "Italic", "Code", "Highlight", "Color", "Red", "Link", "CodeBlock", "QuoteBlock", "LinkBlock", "Header", "Bullet"},
+			[]string{"collapse", "Apply", "Indent", "Pad", "DumbWrap", "Wrap", "lineIsOnlyWhitespace", "Snip"})
+		emit("pub/post.go, pub/actor.go, pub/activity.go, pub/failure.go (String, Preview, Name, Timestamp and what they call), style.Problem, ansi.Scrub", text, errs)
 	default:
 		b.WriteString("-- unknown unit " + unit + "\n")
 	}
